@@ -1701,6 +1701,103 @@ pub async fn read(ex: &mut Exchange<'_>, req: &ReadReq, on_chunk: &mut dyn FnMut
     report_loop(ex, false, on_chunk).await
 }
 
+/// Where [`subscribe_gated`] stops before it answers a priming chunk.
+#[derive(Debug, Clone, Copy, PartialEq, Eq, Serialize, Deserialize)]
+pub enum HoldChunk {
+    /// before the StatusResponse to the FIRST priming chunk
+    First,
+    /// before the StatusResponse to the LAST priming chunk (the one that completes the priming)
+    Last,
+}
+
+/// Rendezvous between a subscribe in flight and whoever does something meanwhile.
+pub struct SubGate {
+    pub hold: HoldChunk,
+    /// set (to the chunk index) once the client holds back its StatusResponse
+    pub reached: Cell<Option<usize>>,
+    /// set by the other side to let the client go on
+    pub release: Cell<bool>,
+}
+
+impl SubGate {
+    pub fn new(hold: HoldChunk) -> Self {
+        Self { hold, reached: Cell::new(None), release: Cell::new(false) }
+    }
+}
+
+/// [`subscribe`], but the StatusResponse to one priming chunk (see [`HoldChunk`]) is held back
+/// until `gate.release` is set: the device has sent (part of) the priming report and waits for
+/// the subscriber's confirmation - the subscription is not in its table yet.
+pub async fn subscribe_gated(ex: &mut Exchange<'_>, req: &SubscribeReq, gate: &SubGate) -> ReadOutcome {
+    if let Err(e) = send_msg(ex, OpCode::SubscribeRequest, &encode_subscribe(req)).await {
+        return ReadOutcome { error: Some(e), ..Default::default() };
+    }
+    let mut out = ReadOutcome::default();
+    loop {
+        let (op, payload) = match recv_msg(ex).await {
+            Ok(x) => x,
+            Err(e) => {
+                out.error = Some(e);
+                return out;
+            }
+        };
+        if op == OpCode::StatusResponse as u8 {
+            match dec_status_resp(&payload) {
+                Some(s) => out.status = Some(s),
+                None => out.error = Some("undecodable StatusResponse".into()),
+            }
+            break;
+        } else if op == OpCode::ReportData as u8 {
+            out.raw.push(payload.clone());
+            let Some((_, msg)) = tlv::parse(&payload) else {
+                out.error = Some("undecodable ReportData (TLV)".into());
+                break;
+            };
+            let chunk = out.chunks;
+            out.chunks += 1;
+            if out.chunks > MAX_CHUNKS {
+                out.error = Some("answer does not end".into());
+                return out;
+            }
+            let Some((more, suppress)) = dec_report(&msg, chunk, &mut out) else {
+                out.error = Some("undecodable ReportData (structure)".into());
+                break;
+            };
+            let hold_here = gate.reached.get().is_none()
+                && match gate.hold {
+                    HoldChunk::First => chunk == 0,
+                    HoldChunk::Last => !more,
+                };
+            if hold_here {
+                gate.reached.set(Some(chunk));
+                while !gate.release.get() {
+                    Timer::after(Duration::from_millis(5)).await;
+                }
+            }
+            if more || !suppress {
+                if let Err(e) = send_msg(ex, OpCode::StatusResponse, &encode_status(0)).await {
+                    out.error = Some(e);
+                    return out;
+                }
+            }
+        } else if op == OpCode::SubscribeResponse as u8 {
+            match tlv::parse(&payload) {
+                Some((_, v)) => match (v.ctx(0).and_then(|x| x.u()), v.ctx(2).and_then(|x| x.u())) {
+                    (Some(id), Some(max)) => out.subscribed = Some((id as u32, max as u16)),
+                    _ => out.error = Some("undecodable SubscribeResponse".into()),
+                },
+                None => out.error = Some("undecodable SubscribeResponse (TLV)".into()),
+            }
+            break;
+        } else {
+            out.error = Some(format!("unexpected IM opcode {op}"));
+            break;
+        }
+    }
+    let _ = select(ex.acknowledge(), Timer::after(Duration::from_secs(5))).await;
+    out
+}
+
 /// Send a SubscribeRequest and collect the priming report and the SubscribeResponse.
 pub async fn subscribe(ex: &mut Exchange<'_>, req: &SubscribeReq, on_chunk: &mut dyn FnMut(usize, &ReadOutcome)) -> ReadOutcome {
     if let Err(e) = send_msg(ex, OpCode::SubscribeRequest, &encode_subscribe(req)).await {
